@@ -761,6 +761,11 @@ func (p *Process) onStateChange(state string) {
 	switch state {
 	case types.ProcessStateSkipped:
 		p.setExitCode(1)
+	case types.ProcessStateError:
+		// the command could not be started: never report success
+		if p.getExitCode() == 0 {
+			p.setExitCode(1)
+		}
 	case types.ProcessStateRestarting:
 		fallthrough
 	case types.ProcessStateLaunching:
